@@ -1470,7 +1470,14 @@ class GeoboxTiles:
         if target_crs is not None and poly.crs != target_crs:
             poly = poly.to_crs(target_crs, check_and_fix=True)
 
-        yy, xx = self.range_from_bbox(poly.boundingbox)
+        bbox = poly.boundingbox
+        if bbox.crs is None:
+            # geometry without CRS: world coordinates of this (CRS-less) GeoBox,
+            # same as the tile extents it is compared with below, while
+            # range_from_bbox reads a CRS-less bounding box as pixel coordinates
+            bbox = poly.transform(self._gbox.wld2pix).boundingbox
+
+        yy, xx = self.range_from_bbox(bbox)
         for idx in itertools.product(yy, xx):
             gbox = self[idx]
             if not poly.disjoint(gbox.extent):
